@@ -15,7 +15,7 @@ use super::{FromMerge, StateLayout, StatementVer, StatementWrapper};
 use crate::Result;
 
 #[derive(Serialize, Deserialize, Debug, PartialEq, Eq, Clone)]
-#[serde(deny_unknown_fields)]
+#[serde(try_from = "StateV01Unchecked")]
 /// Statement `V0_1` means the statement of contains a predicate for SLSA format.
 ///
 /// Can be used together with most predicate.
@@ -26,6 +26,39 @@ pub struct StateV01 {
     #[serde(rename = "predicateType")]
     predicate_type: PredicateVer,
     predicate: PredicateWrapper,
+}
+
+/// Wire shape of [`StateV01`] before the declared predicate type has been
+/// checked against the predicate that is actually contained.
+#[derive(Deserialize)]
+#[serde(deny_unknown_fields)]
+struct StateV01Unchecked {
+    #[serde(rename = "_type")]
+    typ: String,
+    subject: BTreeMap<VirtualTargetPath, TargetDescription>,
+    #[serde(rename = "predicateType")]
+    predicate_type: PredicateVer,
+    predicate: PredicateWrapper,
+}
+
+impl std::convert::TryFrom<StateV01Unchecked> for StateV01 {
+    type Error = Error;
+
+    fn try_from(raw: StateV01Unchecked) -> Result<Self> {
+        let contained = raw.predicate.clone().into_trait().version();
+        if contained != raw.predicate_type {
+            return Err(Error::AttestationFormatDismatch(
+                raw.predicate_type.into(),
+                contained.into(),
+            ));
+        }
+        Ok(StateV01 {
+            typ: raw.typ,
+            subject: raw.subject,
+            predicate_type: raw.predicate_type,
+            predicate: raw.predicate,
+        })
+    }
 }
 
 impl StateLayout for StateV01 {
